@@ -10,6 +10,8 @@ Case kinds (first token of the protocol line; see hooks/banyand/internal/verifdr
   djp      getDisjointParts (stream and trace copies) on bare part time ranges
   squery   banyand/stream time-ordered scan of one segment: real mem parts -> getDisjointParts -> blockScanner -> tsResult.Pull
   miq      measure index-mode ordered query over a real multi-segment TSDB (buildIndexQueryResult/segResultHeap/indexSortResult)
+  sidxq    banyand/stream idxResult (index-ordered stream query): real mem parts, the ordered index as a fake iterator
+  dq       trace / measure distributed logical plans: real DistributedAnalyze + Execute against faithful fake data nodes
   mqr      banyand/measure queryResult (heap of block cursors over real mem parts; order by time asc/desc or by series)
   sidx     real sidx (write/flush/merge history, StreamingQuery + QuerySync), queries OUTSIDE the F11 class
   sidxdup  same with duplicate data payloads (exercises the data-level de-duplication)
@@ -520,6 +522,70 @@ def miq_oracle(line, g):
     return None
 
 
+def gen_sidxq(rng):
+    nparts = rng.choice([2, 2, 3, 4])
+    nser = rng.choice([1, 1, 2, 3])
+    nid, parts, allrows = 1000, [], []
+    base = 0
+    for pi in range(nparts):
+        # parts cover separate or overlapping time bands; timestamps >= 1
+        lo = base + rng.randint(1, 20)
+        hi = lo + rng.randint(0, 30)
+        base = hi if rng.random() < 0.6 else max(0, lo - 5)
+        rows = []
+        for _ in range(rng.choice([1, 2, 3, 5])):
+            nid += 1
+            rows.append((rng.randint(1, nser), rng.randint(lo, hi), nid))
+        parts.append(rows)
+        allrows.extend(rows)
+    it = list(allrows)
+    rng.shuffle(it)                      # sort-key order is unrelated to time: non-monotone timestamps
+    if rng.random() < 0.3:
+        it = it[:rng.randint(1, len(it))]
+    f = lambda rows: ",".join("%d:%d:%d" % r for r in rows)
+    return "sidxq %d %s %s" % (rng.choice([1, 2, 3, 5, 100]), f(it), "|".join(f(p) for p in parts))
+
+
+def gen_dq(rng):
+    kind = rng.choice(["trace", "measure"])
+    return "dq %s %s %d %d %d %d %d" % (kind, rng.choice(["none", "asc", "desc"]), rng.choice([1, 2, 3, 4]),
+                                       rng.choice([0, 3, 17, 60, 150]), rng.choice([0, 0, 1, 5, 20, 50]),
+                                       rng.choice([0, 0, 1, 5, 30]), rng.randint(0, 9999))
+
+
+def sidxq_oracle(line, g):
+    f = line.split()
+    want, seen = [], set()
+    for e in f[2].split(","):
+        i = e.split(":")[2]
+        if i not in seen:
+            seen.add(i)
+            want.append(i)
+    pages = [] if g == "-" else [pg.split(",") for pg in g.split("/")]
+    got = [x for pg in pages for x in pg]
+    if got != want:
+        return ("violation", "sidxq: the index yields %s, the query returned %s" % (want[:12], got[:12]))
+    if any(len(pg) == 0 or len(pg) > max(int(f[1]), 1) for pg in pages):
+        return ("violation", "sidxq: page sizes %s with MaxElementSize %s" % ([len(pg) for pg in pages], f[1]))
+    return None
+
+
+def dq_oracle(line, g):
+    f = line.split()
+    kind, desc, rows, limit, offset = f[1], f[2] == "desc", int(f[4]), int(f[5]), int(f[6])
+    eff = limit if limit > 0 else (20 if kind == "trace" else 100)
+    full = list(range(rows))[::-1] if desc else list(range(rows))
+    want = full[offset:offset + eff]
+    gs = g.split(" got=")
+    if len(gs) != 2:
+        return ("violation", "dq: " + g[:100])
+    got = [] if gs[1] == "-" else [int(x) for x in gs[1].split(",")]
+    if got != want:
+        return ("violation", "dq %s: limit=%d offset=%d over %d rows on %s nodes returned %s (%s), the window of the ordered union is %s" %
+                (kind, limit, offset, rows, f[3], got[:10], gs[0], want[:10]))
+    return None
+
+
 def sim_blocks(parts):
     """generator-side layout: one block per (part, series)"""
     out = []
@@ -665,6 +731,8 @@ class C09(vlib.Spec):
         "measure queryResult: series ids and timestamps >= 1 (0 is a sentinel in part.go/query.go, see C02/C03), no tag/field "
         "projection beyond one int field, no TopN options, <= 8192 rows per (part, series)",
         "limitIterator: uint32 index does not overflow",
+        "sidxq: the ordered index yields every element once and is consistent with the stored elements (same id, series, timestamp); timestamps >= 1; no "
+        "element filter; dq: fake data nodes return the first Limit rows of their own ordered data (the pushed request has no offset)",
         "squery: MaxElementSize >= number of rows (page truncation by MaxElementSize is not modelled); the heap merge inside one "
         "part group is abstracted as sorted in the model (tied by correspondence); timestamps >= 1",
         "miq: a series has the same sort value in every segment; hash-free series ids from pbv1.Series.Marshal",
@@ -677,7 +745,9 @@ class C09(vlib.Spec):
             "int64 extremes), random flush/merge history, 2-6 queries each with MaxBatchSize in {0,1,2,3,7,64}, "
             "key ranges (open, inner, outside, single key), series subsets, asc/desc, through StreamingQuery and "
             "QuerySync; mmerge: 1-4 nodes with (sid,ts) duplicates of differing versions, offset/limit at 0/end/beyond; "
-            "topq: n in 1..10 over up to 30 values; djp/squery: 1-7 part time ranges (nested in a wide part, chains of touching "
+            "topq: n in 1..10 over up to 30 values; sidxq: 2-4 real mem parts over separate/overlapping time bands, the index "
+            "yields the elements in a random (time-unrelated) order, MaxElementSize 1..100; dq: trace and measure, 1-4 nodes, "
+            "0-150 rows hashed to nodes, limit in {unset,1,5,20,50}, offset in {0,1,5,30}, order none/asc/desc; djp/squery: 1-7 part time ranges (nested in a wide part, chains of touching "
             "parts, disjoint, random), rows at both range ends, 1-3 series, time range clipping, asc/desc; miq: 1-3 daily "
             "segments, 2-8 series shared between segments, duplicate sort values, entity-only and field projection; tsidx: 1-4 real sidx instances (interleaving / dense duplicate / int64 extreme "
             "keys, trace ids shared between instances, 1-2 parts each), order asc/desc/UNSPECIFIED/nil, batch sizes; slimit: an "
@@ -686,9 +756,9 @@ class C09(vlib.Spec):
 
     def cases(self, rng, n):
         out = []
-        mix = [("sort", 0.12), ("smerge", 0.03), ("mmerge", 0.10), ("topq", 0.05), ("mqr", 0.10), ("tsidx", 0.08),
-               ("slimit", 0.09), ("djp", 0.06), ("squery", 0.06), ("miq", 0.03), ("sidx", 0.14), ("sidxdup", 0.06),
-               ("sidxf11", 0.08)]
+        mix = [("sort", 0.10), ("smerge", 0.03), ("mmerge", 0.09), ("topq", 0.05), ("mqr", 0.09), ("tsidx", 0.08),
+               ("slimit", 0.08), ("djp", 0.05), ("squery", 0.05), ("miq", 0.03), ("sidxq", 0.06), ("dq", 0.07),
+               ("sidx", 0.10), ("sidxdup", 0.05), ("sidxf11", 0.07)]
         for _ in range(n):
             r, acc = rng.random(), 0.0
             kind = "sidx"
@@ -709,6 +779,10 @@ class C09(vlib.Spec):
                 out.append(gen_mqr(rng))
             elif kind == "tsidx":
                 out.append(gen_tsidx(rng))
+            elif kind == "sidxq":
+                out.append(gen_sidxq(rng))
+            elif kind == "dq":
+                out.append(gen_dq(rng))
             elif kind == "djp":
                 out.append(gen_djp(rng))
             elif kind == "squery":
@@ -773,6 +847,10 @@ class C09(vlib.Spec):
             return mqr_oracle(line, g)
         if kind == "tsidx":
             return tsidx_oracle(line, g)
+        if kind == "sidxq":
+            return sidxq_oracle(line, g)
+        if kind == "dq":
+            return dq_oracle(line, g)
         if kind == "djp":
             return djp_oracle(line, g)
         if kind == "squery":
@@ -781,7 +859,7 @@ class C09(vlib.Spec):
             return miq_oracle(line, g)
         if kind == "slimit":
             return slimit_oracle(line, g)
-        if kind.startswith("sidx"):
+        if kind in ("sidx", "sidxdup", "sidxf11"):
             return self.sidx_oracle(line, g)
         return ("violation", "unknown case kind")
 
@@ -895,7 +973,7 @@ class C09(vlib.Spec):
             fa = [] if g == "-" else [tuple(x.split(":")) for b in ga for x in b.split(",")]
             fb = [] if l == "-" else [tuple(x.split(":")) for b in la for x in b.split(",")]
             return runs_canon(fa, lambda x: int(x[0]), lambda x: x[1]) == runs_canon(fb, lambda x: int(x[0]), lambda x: x[1])
-        if kind.startswith("sidx"):
+        if kind in ("sidx", "sidxdup", "sidxf11"):
             sg, slm = split_sidx_out(g), split_sidx_out(l)
             if sg is None or slm is None or sg[0] != slm[0] or len(sg[1]) != len(slm[1]):
                 return False
@@ -926,6 +1004,10 @@ class C09(vlib.Spec):
             return line if f[6].count(":") >= 6 else None
         if f[0] == "tsidx":
             return line if f[4].count(":") >= 2 else None
+        if f[0] == "sidxq":
+            return line if f[2].count(",") >= 1 else None
+        if f[0] == "dq":
+            return line if int(f[4]) > 0 else None
         if f[0] == "djp":
             return line if f[3].count(",") >= 1 else None
         if f[0] == "squery":
@@ -941,7 +1023,7 @@ class C09(vlib.Spec):
 
     def shrink(self, line, still_fails):
         f = line.split()
-        if not f[0].startswith("sidx"):
+        if f[0] not in ("sidx", "sidxdup", "sidxf11"):
             return line
         qi = f.index("Q")
         ops, qs = f[1:qi], f[qi + 1:]
@@ -1017,10 +1099,13 @@ PROPS = [
     # getDisjointParts, time-ordered stream scan, measure index-mode ordered query
     "groupParts_spec", "disjoint_groups_spec", "stream_ts_query_sorted", "stream_ts_query_legacy_counterexample",
     "strictWeak_kvLt", "dropSeen_spec", "index_sort_query_spec",
+    # index-ordered stream query window, distributed push-down arithmetic
+    "idxFold_spec", "idx_window_covers", "pushedLimit_covers",
 ]
 TIES = ["scanner_batch_tie", "max_block_length_tie", "less_by_key_tie", "threshold_shape_tie", "drain_shape_tie",
         "trace_batch_tie", "trace_direction_shape_tie", "stream_limit_shape_tie",
-        "disjoint_boundary_shape_tie", "seg_result_remove_shape_tie"]
+        "disjoint_boundary_shape_tie", "seg_result_remove_shape_tie",
+        "idx_window_shape_tie", "push_down_limit_shape_tie"]
 SPEC = C09()
 SPEC.theorems = ["Banyan.C09." + t for t in PROPS] + ["Banyan.Tie.C09." + t for t in TIES]
 
